@@ -25,6 +25,7 @@ from ..astutil import calls, dotted, is_self_attr, kwarg, method_call, norm, wal
 from ..cfg import build_cfg
 from ..flow import Defs, _Sel, origins
 from ..paths import normal_only
+from .common import nodes_calling
 from ..report import Check
 from ..strdom import BoolV, Interp, IntV, StrV
 
@@ -340,9 +341,22 @@ def rule_l6(chk: Check) -> None:
 
 def rule_l7(chk: Check) -> None:
     chk.rule("L7", "the configured capacity / refill_rate / retry_after reach the limiter as written: from_toml passes the value of the like-named key (also 0, which is a valid quota) and get_rate_limit_config passes the like-named fields")
+    config_value_fidelity(chk, "L7", {"rate_limit_capacity": "capacity", "rate_limit_refill_rate": "refill_rate", "rate_limit_retry_after": "retry_after"}, "the running limiter admits more than the configured bound")
+    gr = chk.proj.func("server.config:ServerConfig.get_rate_limit_config")
+    c2 = next((c for c in calls(gr.node) if (dotted(c.func) or "").split(".")[-1] == "RateLimitConfig"), None)
+    for fld in ("capacity", "refill_rate", "retry_after"):
+        v = kwarg(c2, fld) if c2 is not None else None
+        ok = v is not None and dotted(v) == f"self.rate_limit_{fld}"
+        if not ok:
+            chk.finding("L7", gr.key, f"field-crossed:{fld}", f"RateLimitConfig.{fld} is fed from `{norm(v) if v is not None else 'nothing'}` instead of self.rate_limit_{fld}", gr.loc())
+        chk.ob("L7", f"RateLimitConfig.{fld} <- self.rate_limit_{fld}", ok)
+
+
+def config_value_fidelity(chk: Check, R: str, want: dict[str, str], consequence: str) -> None:
+    """from_toml passes numeric settings through unchanged: the constructor
+    argument evaluated abstractly with the key present and set to 0 is 0."""
     ft = chk.proj.func("server.config:ServerConfig.from_toml")
     ctor = next((c for c in calls(ft.node) if dotted(c.func) == "cls"), None)
-    want = {"rate_limit_capacity": "capacity", "rate_limit_refill_rate": "refill_rate", "rate_limit_retry_after": "retry_after"}
     n = 0
     if ctor is not None:
         for k in ctor.keywords:
@@ -401,20 +415,39 @@ def rule_l7(chk: Check) -> None:
             ok = isinstance(v, IntV) and v.lo == 0 and v.hi == 0 and key in reads
             if not ok:
                 chk.finding(
-                    "L7", ft.key, f"config-value:{key}",
-                    f"`{k.arg}={norm(k.value)[:70]}` does not pass a configured `{key} = 0` through (evaluates to {v!r} for 0; keys read: {reads}): a value written in the configuration is replaced, so the running limiter admits more than the configured bound",
+                    R, ft.key, f"config-value:{key}",
+                    f"`{k.arg}={norm(k.value)[:70]}` does not pass a configured `{key} = 0` through (evaluates to {v!r} for 0; keys read: {reads}): a value written in the configuration is replaced, so {consequence}",
                     ft.loc(k.value),
                 )
-            chk.ob("L7", f"from_toml: {k.arg} <- key {key}, 0 preserved", ok)
-    chk.require("L7", ft.key, "rate-limit settings read from the file", n, 3, "from_toml no longer reads capacity, refill_rate and retry_after")
-    gr = chk.proj.func("server.config:ServerConfig.get_rate_limit_config")
-    c2 = next((c for c in calls(gr.node) if (dotted(c.func) or "").split(".")[-1] == "RateLimitConfig"), None)
-    for fld in ("capacity", "refill_rate", "retry_after"):
-        v = kwarg(c2, fld) if c2 is not None else None
-        ok = v is not None and dotted(v) == f"self.rate_limit_{fld}"
-        if not ok:
-            chk.finding("L7", gr.key, f"field-crossed:{fld}", f"RateLimitConfig.{fld} is fed from `{norm(v) if v is not None else 'nothing'}` instead of self.rate_limit_{fld}", gr.loc())
-        chk.ob("L7", f"RateLimitConfig.{fld} <- self.rate_limit_{fld}", ok)
+            chk.ob(R, f"from_toml: {k.arg} <- key {key}, 0 preserved", ok)
+    chk.require(R, ft.key, "settings read from the file", n, len(want), f"from_toml no longer reads {sorted(want.values())}")
+
+
+def rule_l8(chk: Check) -> None:
+    chk.rule("L8", "with rate limiting enabled a RateLimiter is installed on every path of start_server (a missing explicit configuration means defaults, not no limiter), and it is registered in the chain the protocol is given")
+    fi = chk.proj.func("server.server:start_server")
+    g = build_cfg(chk.proj, fi)
+    mk = nodes_calling(g, lambda c: (dotted(c.func) or "").split(".")[-1] == "RateLimiter")
+    chain = nodes_calling(g, lambda c: (dotted(c.func) or "").split(".")[-1] == "MiddlewareChain")
+    if not chk.require("L8", fi.key, "RateLimiter construction", len(mk), 1, "start_server never installs a rate limiter"):
+        return
+    if not chk.require("L8", fi.key, "MiddlewareChain construction", len(chain), 1, "start_server never builds the middleware chain"):
+        return
+    flag = next((p for p in fi.params if "rate_limit" in p and "config" not in p), None)
+    off = set()
+    for t in g.nodes:
+        if t.kind == "test" and t.ast is not None and flag and dotted(t.ast) == flag:
+            off |= {(t.id, b, lab) for b, lab in g.succ[t.id] if lab == "F"}
+    par = g.reach([g.entry.id], blocked_nodes={x.id for x in mk}, blocked_edges=off, follow=normal_only)
+    bad = [c for c in chain if c.id in par]
+    ok = bool(flag) and not bad
+    if not ok:
+        chk.finding(
+            "L8", fi.key, "limiter-skipped",
+            f"with `{flag}` true the middleware chain can be built on a path that installs no RateLimiter (e.g. when no explicit configuration object is passed): requests are then admitted without any bound",
+            (bad[0] if bad else mk[0]).where(), g.fmt_path(g.path_to(par, bad[0].id)) if bad else [],
+        )
+    chk.ob("L8", f"{fi.key}: rate limiting enabled -> limiter installed on every path", ok, evals=len(par))
 
 
 def run(chk: Check) -> None:
@@ -424,5 +457,6 @@ def run(chk: Check) -> None:
     rule_l4_l5(chk)
     rule_l6(chk)
     rule_l7(chk)
+    rule_l8(chk)
     chk.trusted = ["CPython ast parser", "engine CFG / abstract evaluator", "asyncio runs coroutines without preemption between awaits"]
     chk.assumptions = ["the inequality admitted <= capacity + refill_rate x T and float rounding are not decided"]
